@@ -113,7 +113,7 @@ func runP7Sign(sc M) {
 	})
 	ev := M{"sc": id, "op": "sign", "ct": ct, "size": size, "key": key, "issuer": issuer, "serial": serial, "res": "ok", "outcome": o.Kind, "readable": false,
 		"sym": M{"content": "none", "signers": []M{}}, "facts": M{}, "openssl": M{"ran": false, "right": false, "wrong": false}, "mozilla": M{"right": false, "wrong": false},
-		"own": M{"parsed": false, "fields": false, "verify": "-", "verify_other": "-"}, "encapsulated_expected": ct == "spc" || (size > 0 && ct != "data")}
+		"own": M{"parsed": false, "fields": false, "verify": "-", "verify_other": "-", "input_unchanged": true}, "encapsulated_expected": ct == "spc" || (size > 0 && ct != "data")}
 	if err != nil {
 		ev["res"] = "error"
 		emit(ev)
@@ -222,7 +222,8 @@ func runP7Sign(sc M) {
 	}()
 	ev["mozilla"] = moz
 	// the library's own parser and verifier
-	own := M{"parsed": false, "fields": false, "verify": "-", "verify_other": "-"}
+	own := M{"parsed": false, "fields": false, "verify": "-", "verify_other": "-", "input_unchanged": true}
+	derBefore := append([]byte{}, der...)
 	callStart(id, "ParsePKCS7+Verify", nil)
 	o2, _ := guard(func() error {
 		p, err := pkcs7.ParsePKCS7(der)
@@ -251,6 +252,8 @@ func runP7Sign(sc M) {
 	if o2.Kind == "panic" {
 		own["verify"] = "panic"
 	}
+	// the blob belongs to the caller: parsing and verifying leave it as it was (others go on verifying the same bytes)
+	own["input_unchanged"] = bytes.Equal(der, derBefore)
 	ev["own"] = own
 	emit(ev)
 }
